@@ -277,6 +277,20 @@ Proof.
     intros _. split; [exact Hnr|]. split; [exact Hcur|]. split; [exact Hold|exact Hmig].
 Qed.
 
+(* the regime is really entered: doubling a table with at least as many buckets as stripes in
+   normal mode yields a well-formed table that is NOT settled (so Refine.good does not cover it) *)
+Corollary deferred_state_reached t :
+  lgood t -> bhp (cur t) + 1 < 60 -> ~ maxed t (bhp (cur t) + 1) -> kmax c <= hashsize (bhp (cur t)) ->
+  let t' := fast_double_body c hash false t (bhp (cur t) + 1) in
+  lgood t' /\ ~ all_migrated t' /\ ~ good t'.
+Proof.
+  intros G Hb Hm Hbig. destruct (fast_double_body_lgood t G Hb Hm) as [G' [_ [_ [_ [_ [_ Hd]]]]]].
+  cbv zeta in *. destruct (Hd Hbig) as [_ [_ [_ Hmig]]].
+  assert (Hn : ~ all_migrated (fast_double_body c hash false t (bhp (cur t) + 1))).
+  { intro Ha. assert (H0 := Hmig 0 (kmax_pos c)). rewrite (lock_at_mig _ 0 Ha) in H0. discriminate. }
+  split; [exact G'|]. split; [exact Hn|]. intros [St _]. apply Hn. apply (se_mig _ _ _ St).
+Qed.
+
 (* ---- 1c. cuckoo_fast_double (automatic doubling of a nothrow type) ---- *)
 
 Theorem cuckoo_fast_double_lgood t :
@@ -1109,9 +1123,13 @@ Proof.
     + destruct H as [-> [-> R']]. eexists. split; [exact R'|]. right. split; [intro; reflexivity|reflexivity].
 Qed.
 
-(* THE PACKAGED STATEMENT: every normal-mode operation of Api.step_some, started on ANY
-   well-formed table (deferred migration possibly pending), leaves a well-formed table with the
-   same limits, and its printed result and new contents are those of the map specification. *)
+(* one lemma per operation, then the packaged statement.
+   [if_negb_false] is used as a REWRITE on purpose: asked to convert [if negb false then X else Y]
+   with X where X is headed by uprase_gen, the kernel unfolds the 70-step insert loop first and
+   Qed does not terminate in practice. *)
+Lemma if_negb_false {A} (X Y : A) : (if negb false then X else Y) = X.
+Proof. reflexivity. Qed.
+
 Lemma refines_OFind w a s k w' r m :
   nothrow c = true -> active s = false ->
   lgood (tb s) -> rep (tb s) m -> op_pre (tb s) (OFind k) ->
@@ -1121,12 +1139,12 @@ Lemma refines_OFind w a s k w' r m :
                 op_spec (tb s) m (OFind k) r m'.
 Proof.
   intros Hnt Hact G R Hpre E.
-  cbv beta iota zeta delta [step_some] in E; rewrite Hact in E; cbn [negb] in E.
+  cbv beta iota zeta delta [step_some] in E; rewrite Hact in E; rewrite if_negb_false in E.
     right. destruct (step_lookup (tb s) k _ _ w' r m G R E) as [t' [E' [G' [L R']]]].
     injection E' as <- <-. exists t', (lk_new (fun v => (v, false)) m k).
     split; [reflexivity|]. split; [exact G'|]. split; [exact L|]. split; [exact R'|].
     cbn [op_spec]. split; [apply lk_new_id; reflexivity|reflexivity].
-Time Qed.
+Qed.
 
 Lemma refines_OFindThrow w a s k w' r m :
   nothrow c = true -> active s = false ->
@@ -1137,12 +1155,12 @@ Lemma refines_OFindThrow w a s k w' r m :
                 op_spec (tb s) m (OFindThrow k) r m'.
 Proof.
   intros Hnt Hact G R Hpre E.
-  cbv beta iota zeta delta [step_some] in E; rewrite Hact in E; cbn [negb] in E.
+  cbv beta iota zeta delta [step_some] in E; rewrite Hact in E; rewrite if_negb_false in E.
     right. destruct (step_lookup (tb s) k _ _ w' r m G R E) as [t' [E' [G' [L R']]]].
     injection E' as <- <-. exists t', (lk_new (fun v => (v, false)) m k).
     split; [reflexivity|]. split; [exact G'|]. split; [exact L|]. split; [exact R'|].
     cbn [op_spec]. split; [apply lk_new_id; reflexivity|reflexivity].
-Time Qed.
+Qed.
 
 Lemma refines_OContains w a s k w' r m :
   nothrow c = true -> active s = false ->
@@ -1153,12 +1171,12 @@ Lemma refines_OContains w a s k w' r m :
                 op_spec (tb s) m (OContains k) r m'.
 Proof.
   intros Hnt Hact G R Hpre E.
-  cbv beta iota zeta delta [step_some] in E; rewrite Hact in E; cbn [negb] in E.
+  cbv beta iota zeta delta [step_some] in E; rewrite Hact in E; rewrite if_negb_false in E.
     right. destruct (step_lookup (tb s) k _ _ w' r m G R E) as [t' [E' [G' [L R']]]].
     injection E' as <- <-. exists t', (lk_new (fun v => (v, false)) m k).
     split; [reflexivity|]. split; [exact G'|]. split; [exact L|]. split; [exact R'|].
     cbn [op_spec]. split; [apply lk_new_id; reflexivity|reflexivity].
-Time Qed.
+Qed.
 
 Lemma refines_OFindFn w a s k w' r m :
   nothrow c = true -> active s = false ->
@@ -1169,12 +1187,12 @@ Lemma refines_OFindFn w a s k w' r m :
                 op_spec (tb s) m (OFindFn k) r m'.
 Proof.
   intros Hnt Hact G R Hpre E.
-  cbv beta iota zeta delta [step_some] in E; rewrite Hact in E; cbn [negb] in E.
+  cbv beta iota zeta delta [step_some] in E; rewrite Hact in E; rewrite if_negb_false in E.
     right. destruct (step_lookup (tb s) k _ _ w' r m G R E) as [t' [E' [G' [L R']]]].
     injection E' as <- <-. exists t', (lk_new (fun v => (v, false)) m k).
     split; [reflexivity|]. split; [exact G'|]. split; [exact L|]. split; [exact R'|].
     cbn [op_spec]. split; [apply lk_new_id; reflexivity|reflexivity].
-Time Qed.
+Qed.
 
 Lemma refines_OUpdate w a s k v w' r m :
   nothrow c = true -> active s = false ->
@@ -1185,12 +1203,12 @@ Lemma refines_OUpdate w a s k v w' r m :
                 op_spec (tb s) m (OUpdate k v) r m'.
 Proof.
   intros Hnt Hact G R Hpre E.
-  cbv beta iota zeta delta [step_some] in E; rewrite Hact in E; cbn [negb] in E.
+  cbv beta iota zeta delta [step_some] in E; rewrite Hact in E; rewrite if_negb_false in E.
     right. destruct (step_lookup (tb s) k _ _ w' r m G R E) as [t' [E' [G' [L R']]]].
     injection E' as <- <-. eexists t', _.
     split; [reflexivity|]. split; [exact G'|]. split; [exact L|]. split; [exact R'|].
     cbn [op_spec]. split; [intro; reflexivity|]. destruct (m k); reflexivity.
-Time Qed.
+Qed.
 
 Lemma refines_OUpdateFn w a s k f w' r m :
   nothrow c = true -> active s = false ->
@@ -1201,12 +1219,12 @@ Lemma refines_OUpdateFn w a s k f w' r m :
                 op_spec (tb s) m (OUpdateFn k f) r m'.
 Proof.
   intros Hnt Hact G R Hpre E.
-  cbv beta iota zeta delta [step_some] in E; rewrite Hact in E; cbn [negb] in E.
+  cbv beta iota zeta delta [step_some] in E; rewrite Hact in E; rewrite if_negb_false in E.
     right. destruct (step_lookup (tb s) k _ _ w' r m G R E) as [t' [E' [G' [L R']]]].
     injection E' as <- <-. eexists t', _.
     split; [reflexivity|]. split; [exact G'|]. split; [exact L|]. split; [exact R'|].
     cbn [op_spec]. split; [intro; reflexivity|reflexivity].
-Time Qed.
+Qed.
 
 Lemma refines_OInsert w a s k v w' r m :
   nothrow c = true -> active s = false ->
@@ -1217,7 +1235,7 @@ Lemma refines_OInsert w a s k v w' r m :
                 op_spec (tb s) m (OInsert k v) r m'.
 Proof.
   intros Hnt Hact G R Hpre E.
-  cbv beta iota zeta delta [step_some] in E; rewrite Hact in E; cbn [negb] in E.
+  cbv beta iota zeta delta [step_some] in E; rewrite Hact in E; rewrite if_negb_false in E.
     destruct (uprase_gen c hash false (tb s) k v (fun _ _ => None)) as [t1 x] eqn:Eu.
     destruct (ins_spec_intro (tb s) k v _ false m t1 x Hnt G R Eu) as [He|[G' [L [m' [R' Hs]]]]];
       [left; exact He|right].
@@ -1225,7 +1243,7 @@ Proof.
     { destruct x as [e|[[ins lg] p]]; injection E as <- _; reflexivity. }
     split; [exact G'|]. split; [exact L|]. split; [exact R'|]. cbn [op_spec].
     destruct x as [e|[[ins lg] p]]; injection E as _ <-; exact Hs.
-Time Qed.
+Qed.
 
 Lemma refines_OIoa w a s k v w' r m :
   nothrow c = true -> active s = false ->
@@ -1236,7 +1254,7 @@ Lemma refines_OIoa w a s k v w' r m :
                 op_spec (tb s) m (OIoa k v) r m'.
 Proof.
   intros Hnt Hact G R Hpre E.
-  cbv beta iota zeta delta [step_some] in E; rewrite Hact in E; cbn [negb] in E.
+  cbv beta iota zeta delta [step_some] in E; rewrite Hact in E; rewrite if_negb_false in E.
     destruct (uprase_gen c hash false (tb s) k v (fun _ newly => if newly then None else Some (v, false)))
       as [t1 x] eqn:Eu.
     destruct (ins_spec_intro (tb s) k v _ false m t1 x Hnt G R Eu) as [He|[G' [L [m' [R' Hs]]]]];
@@ -1245,7 +1263,7 @@ Proof.
     { destruct x as [e|[[ins lg] p]]; injection E as <- _; reflexivity. }
     split; [exact G'|]. split; [exact L|]. split; [exact R'|]. cbn [op_spec].
     destruct x as [e|[[ins lg] p]]; injection E as _ <-; exact Hs.
-Time Qed.
+Qed.
 
 Lemma refines_OUpsert w a s k f two v w' r m :
   nothrow c = true -> active s = false ->
@@ -1256,7 +1274,7 @@ Lemma refines_OUpsert w a s k f two v w' r m :
                 op_spec (tb s) m (OUpsert k f two v) r m'.
 Proof.
   intros Hnt Hact G R Hpre E.
-  cbv beta iota zeta delta [step_some] in E; rewrite Hact in E; cbn [negb] in E.
+  cbv beta iota zeta delta [step_some] in E; rewrite Hact in E; rewrite if_negb_false in E.
     destruct (uprase_gen c hash false (tb s) k v (invoke fapply f two false)) as [t1 x] eqn:Eu.
     destruct (ins_spec_intro (tb s) k v _ true m t1 x Hnt G R Eu) as [He|[G' [L [m' [R' Hs]]]]];
       [left; exact He|right].
@@ -1264,7 +1282,7 @@ Proof.
     { destruct x as [e|[[ins lg] p]]; injection E as <- _; reflexivity. }
     split; [exact G'|]. split; [exact L|]. split; [exact R'|]. cbn [op_spec].
     destruct x as [e|[[ins lg] p]]; injection E as _ <-; exact Hs.
-Time Qed.
+Qed.
 
 Lemma refines_OUprase w a s k f two v w' r m :
   nothrow c = true -> active s = false ->
@@ -1275,7 +1293,7 @@ Lemma refines_OUprase w a s k f two v w' r m :
                 op_spec (tb s) m (OUprase k f two v) r m'.
 Proof.
   intros Hnt Hact G R Hpre E.
-  cbv beta iota zeta delta [step_some] in E; rewrite Hact in E; cbn [negb] in E.
+  cbv beta iota zeta delta [step_some] in E; rewrite Hact in E; rewrite if_negb_false in E.
     destruct (uprase_gen c hash false (tb s) k v (invoke fapply f two true)) as [t1 x] eqn:Eu.
     destruct (ins_spec_intro (tb s) k v _ true m t1 x Hnt G R Eu) as [He|[G' [L [m' [R' Hs]]]]];
       [left; exact He|right].
@@ -1283,7 +1301,7 @@ Proof.
     { destruct x as [e|[[ins lg] p]]; injection E as <- _; reflexivity. }
     split; [exact G'|]. split; [exact L|]. split; [exact R'|]. cbn [op_spec].
     destruct x as [e|[[ins lg] p]]; injection E as _ <-; exact Hs.
-Time Qed.
+Qed.
 
 Lemma refines_OErase w a s k w' r m :
   nothrow c = true -> active s = false ->
@@ -1294,12 +1312,12 @@ Lemma refines_OErase w a s k w' r m :
                 op_spec (tb s) m (OErase k) r m'.
 Proof.
   intros Hnt Hact G R Hpre E.
-  cbv beta iota zeta delta [step_some] in E; rewrite Hact in E; cbn [negb] in E.
+  cbv beta iota zeta delta [step_some] in E; rewrite Hact in E; rewrite if_negb_false in E.
     right. destruct (step_lookup (tb s) k _ _ w' r m G R E) as [t' [E' [G' [L R']]]].
     injection E' as <- <-. eexists t', _.
     split; [reflexivity|]. split; [exact G'|]. split; [exact L|]. split; [exact R'|].
     cbn [op_spec]. split; [intro; reflexivity|]. destruct (m k); reflexivity.
-Time Qed.
+Qed.
 
 Lemma refines_OEraseFn w a s k f w' r m :
   nothrow c = true -> active s = false ->
@@ -1310,12 +1328,12 @@ Lemma refines_OEraseFn w a s k f w' r m :
                 op_spec (tb s) m (OEraseFn k f) r m'.
 Proof.
   intros Hnt Hact G R Hpre E.
-  cbv beta iota zeta delta [step_some] in E; rewrite Hact in E; cbn [negb] in E.
+  cbv beta iota zeta delta [step_some] in E; rewrite Hact in E; rewrite if_negb_false in E.
     right. destruct (step_lookup (tb s) k _ _ w' r m G R E) as [t' [E' [G' [L R']]]].
     injection E' as <- <-. eexists t', _.
     split; [reflexivity|]. split; [exact G'|]. split; [exact L|]. split; [exact R'|].
     cbn [op_spec]. split; [intro; reflexivity|reflexivity].
-Time Qed.
+Qed.
 
 Lemma refines_ORehash w a s n w' r m :
   nothrow c = true -> active s = false ->
@@ -1326,7 +1344,7 @@ Lemma refines_ORehash w a s n w' r m :
                 op_spec (tb s) m (ORehash n) r m'.
 Proof.
   intros Hnt Hact G R Hpre E.
-  cbv beta iota zeta delta [step_some] in E; rewrite Hact in E; cbn [negb] in E.
+  cbv beta iota zeta delta [step_some] in E; rewrite Hact in E; rewrite if_negb_false in E.
     right. destruct Hpre as [Hl Hd].
     destruct (cuckoo_rehash c hash false (tb s) n) as [t1 x] eqn:Er. injection E as <- <-.
     destruct (cuckoo_rehash_lgood (tb s) n G Hl t1 x Er) as [H1 [H2 [H3 H4]]].
@@ -1344,7 +1362,7 @@ Proof.
     + rewrite (H2 eq_refl). split; [exact G|]. split; [apply lim_same_refl|]. split; [exact R|].
       cbn [op_spec]. split; [intro; reflexivity|]. left. exists false. split; [reflexivity|].
       split; [intros _; apply H1; reflexivity|reflexivity].
-Time Qed.
+Qed.
 
 Lemma refines_OReserve w a s n w' r m :
   nothrow c = true -> active s = false ->
@@ -1355,7 +1373,7 @@ Lemma refines_OReserve w a s n w' r m :
                 op_spec (tb s) m (OReserve n) r m'.
 Proof.
   intros Hnt Hact G R Hpre E.
-  cbv beta iota zeta delta [step_some] in E; rewrite Hact in E; cbn [negb] in E.
+  cbv beta iota zeta delta [step_some] in E; rewrite Hact in E; rewrite if_negb_false in E.
     right. destruct Hpre as [Hl Hd]. rewrite cuckoo_reserve_eq in E.
     destruct (cuckoo_rehash c hash false (tb s) (reserve_calc c n)) as [t1 x] eqn:Er. injection E as <- <-.
     destruct (cuckoo_rehash_lgood (tb s) _ G Hl t1 x Er) as [H1 [H2 [H3 H4]]].
@@ -1373,9 +1391,9 @@ Proof.
     + rewrite (H2 eq_refl). split; [exact G|]. split; [apply lim_same_refl|]. split; [exact R|].
       cbn [op_spec]. split; [intro; reflexivity|]. left. exists false. split; [reflexivity|].
       split; [intros _; apply H1; reflexivity|reflexivity].
-Time Qed.
+Qed.
 
-Lemma refines_OClear w a s  w' r m :
+Lemma refines_OClear w a s w' r m :
   nothrow c = true -> active s = false ->
   lgood (tb s) -> rep (tb s) m -> op_pre (tb s) OClear ->
   step_some c hash fapply w a s OClear = (w', r) ->
@@ -1384,15 +1402,14 @@ Lemma refines_OClear w a s  w' r m :
                 op_spec (tb s) m OClear r m'.
 Proof.
   intros Hnt Hact G R Hpre E.
-  cbv beta iota zeta delta [step_some] in E; rewrite Hact in E; cbn [negb] in E.
+  cbv beta iota zeta delta [step_some] in E; rewrite Hact in E; rewrite if_negb_false in E.
     right. injection E as <- <-.
     destruct (cuckoo_clear_lgood (tb s) G) as [G' [Hno [L _]]].
     exists (cuckoo_clear (tb s)), mempty. split; [reflexivity|]. split; [apply good_lgood; exact G'|].
     split; [exact L|]. split.
     + intros k v. split; [intro H; exfalso; exact (Hno k v H)|intro H; discriminate].
     + cbn [op_spec]. split; [intro; reflexivity|reflexivity].
-
-Time Qed.
+Qed.
 
 (* THE PACKAGED STATEMENT: every normal-mode operation of Api.step_some, started on ANY
    well-formed table (deferred migration possibly pending), leaves a well-formed table with the
@@ -1422,7 +1439,7 @@ Proof.
   - exact (refines_ORehash _ _ _ _ _ _ _ Hnt Hact G R Hpre E).
   - exact (refines_OReserve _ _ _ _ _ _ _ Hnt Hact G R Hpre E).
   - exact (refines_OClear _ _ _ _ _ _ Hnt Hact G R Hpre E).
-Time Qed.
+Qed.
 
 End Ops.
 
